@@ -29,29 +29,35 @@ def panelTable (T : Topo) : List (String × Nat × Option (Int × Nat)) :=
 def xfmrTable (T : Topo) : List (String × Nat × Option Nat) :=
   T.xfmrs.map fun x => (x.name, x.sec.evses.length, (xfmrCap T x).map (·.1))
 
+/-- the site has exactly one topology in the dump, it passes `topoOk`, and its documented sizes and
+    ratings are as given -/
+def structureOk (s : String) (n : Nat) (xt : List (String × Nat × Option Nat))
+    (pt pdt : List (String × Nat × Option (Int × Nat))) : Bool :=
+  match siteTopos s with
+  | [T] => topoOk T && decide (nStations T = n) && decide (xfmrTable T = xt) &&
+      decide (panelTable T = pt) && decide (podTable T = pdt)
+  | _ => false
+
 /-- Caltech: 54 EVSEs, each with a line-to-line angle and under the one transformer whose secondary
     rows are `1_AB − 1_CA`, `1_BC − 1_AB`, `1_CA − 1_BC` with limit `cap·1000/3/120`; two 80 A pods of
     eight same-angle EVSEs (full list of checks: `Sites.topoOk`). -/
 theorem site_structure_caltech :
-    (siteTopos "caltech").length = 1 ∧ ∀ T ∈ siteTopos "caltech", topoOk T = true ∧ nStations T = 54 ∧
-      xfmrTable T = [("", 54, some 0)] ∧ panelTable T = [] ∧
-      podTable T = [("CC Pod", 8, some (80, 1)), ("AV Pod", 8, some (80, 1))] := by
+    structureOk "caltech" 54 [("", 54, some 0)] []
+      [("CC Pod", 8, some (80, 1)), ("AV Pod", 8, some (80, 1))] = true := by
   decide +kernel
 
 /-- JPL: 52 EVSEs; two transformers (14 EVSEs on capacity 0, 38 on capacity 1); sub-panels at
     100 A / 225 A per line. -/
 theorem site_structure_jpl :
-    (siteTopos "jpl").length = 1 ∧ ∀ T ∈ siteTopos "jpl", topoOk T = true ∧ nStations T = 52 ∧
-      xfmrTable T = [("First Floor Transformer", 14, some 0), ("Third/Fourth Floor Transformer", 38, some 1)] ∧
-      podTable T = [] ∧
-      panelTable T = [("First Floor SP1", 4, some (100, 1)), ("First Floor SP2", 6, some (100, 1)),
-        ("Third Floor Panel", 19, some (225, 1)), ("Fourth Floor Panel", 19, some (225, 1))] := by
+    structureOk "jpl" 52
+      [("First Floor Transformer", 14, some 0), ("Third/Fourth Floor Transformer", 38, some 1)]
+      [("First Floor SP1", 4, some (100, 1)), ("First Floor SP2", 6, some (100, 1)),
+        ("Third Floor Panel", 19, some (225, 1)), ("Fourth Floor Panel", 19, some (225, 1))] [] = true := by
   decide +kernel
 
 /-- Office001: 8 EVSEs under one transformer. -/
 theorem site_structure_office001 :
-    (siteTopos "office001").length = 1 ∧ ∀ T ∈ siteTopos "office001", topoOk T = true ∧ nStations T = 8 ∧
-      xfmrTable T = [("", 8, some 0)] ∧ panelTable T = [] ∧ podTable T = [] := by
+    structureOk "office001" 8 [("", 8, some 0)] [] [] = true := by
   decide +kernel
 
 /-- every executed factory call (3 sites × basic/real EVSEs × 3 capacity settings): the limits the
